@@ -27,19 +27,27 @@ static int sends_done, recv_begun, recv_done, total;
 static int blocked_seen;
 
 #define MKID(s, q) ((long)(((s) + 1) << 8 | ((q) + 1)))
-static NS void g_send_begin(int s, int q) { sent_begun[s][q] = 1; }
+static NS void g_send_begin(int s, int q) {
+  sent_begun[s][q] = 1;
+  sim_trace("sender %d begins send %d", s, q);
+}
 static NS void g_send_done(void) {
   sends_done++;
+  sim_trace("send returned (%d done)", sends_done);
   if ((kind == K_BOUNDED_SIG || kind == K_BOUNDED_SPIN || kind == K_MULTI) && sends_done - recv_begun > cap)
     sim_violation("C11-over-capacity", "%d sends have returned but only %d receives were invoked: capacity %d exceeded", sends_done, recv_begun, cap);
   sim_progress();
 }
-static NS void g_recv_begin(void) { recv_begun++; }
+static NS void g_recv_begin(void) {
+  recv_begun++;
+  sim_trace("receive %d begins", recv_begun);
+}
 static NS void g_recv(long id, int strict_order) {
   int s = (int)(id >> 8) - 1, q = (int)(id & 0xff) - 1;
   if (s < 0 || s >= nsend || q < 0 || q >= per[s] || !sent_begun[s][q]) sim_violation("C11-invented-message", "received %#lx which was never sent", id);
   if (received[s][q]) sim_violation("C11-duplicate", "message %d of sender %d received twice", q, s);
   received[s][q] = 1;
+  sim_trace("received message %d of sender %d", q, s);
   if (strict_order && q != last_seq[s]) sim_violation("C11-out-of-order", "sender %d: message %d received when %d was expected", s, q, last_seq[s]);
   if (q >= last_seq[s]) last_seq[s] = q + 1;
   recv_done++;
@@ -105,8 +113,9 @@ static void fd_wait_once(void) {
   unsigned char b[2];
   if (pipe(fdw_fd)) sim_violation("SIM-pipe", "pipe failed");
   fdw_in = 1;
+  sim_trace("receiver waits on fd %d", fdw_fd[0]);
   ssize_t r = read(fdw_fd[0], b, 1); /* resumed by the helper's close() */
-  (void)r;
+  sim_trace("receiver's read returned %zd", r);
   fdw_in = 0;
   close(fdw_fd[1]);
 }
